@@ -493,16 +493,12 @@ def cholesky_band(l, mininf=0.0):
         #
         # Figure out where the error is.
         #
-        lower = l.copy()
-        kn = bw - 1
-        spot = np.arange(kn, dtype='i4') + 1
         for j in range(n):
-            lower[0, j] = np.sqrt(lower[0, j])
-            lower[spot, j] /= lower[0, j]
-            x = lower[spot, j]
-            if not np.all(np.isfinite(x)):
+            try:
+                cholesky_banded(l[:, 0:j+1], lower=True)
+            except LinAlgError:
                 warn('NaN found in cholesky_band.', PydlutilsUserWarning)
-                return (j, l)
+                return (np.array([j]), l)
     #
     # Restore padding.
     #
